@@ -178,6 +178,7 @@ def data_table(ctx, g):
     toks = open(path).read().split()
     entries = [t for t in toks if t.endswith("/") and not t.startswith("#")]
     bad = []
+    noncanon = []
     for t in entries:
         p = t.split("/")
         ok = p[-1] == ""
@@ -190,6 +191,10 @@ def data_table(ctx, g):
             invs = [int(x) for x in rest[3:]]
             ok = ok and len(labels) == n and all(re.fullmatch(r"[0-9*x]+", l) for l in labels) and o in (0, 1, 2) and len(invs) == k and invs == sorted(invs) and e >= 0
             ok = ok and labels == sorted(labels)
+            # canonical form of abelian_invariants: no 1s, non-zero factors form a divisibility chain
+            nz = [x for x in invs if x != 0]
+            if ok and (1 in invs or any(nz[i + 1] % nz[i] != 0 for i in range(len(nz) - 1))):
+                noncanon.append(t)
         except (ValueError, IndexError):
             ok = False
         if not ok:
@@ -197,6 +202,12 @@ def data_table(ctx, g):
     ctx.ob("T4-data-format", "src/data/euclideanInvariants.data", "tokens", "ok" if not bad else "violation",
            "all %d '/'-terminated tokens parse as n/t1..tn/o/e/k/i1..ik/" % len(entries) if not bad else
            "%d table entries do not parse in the format orbifold_invariant emits, e.g. %s: such an entry can never match" % (len(bad), bad[:3]))
+    for t in noncanon:
+        ctx.ob("T4-data-canonical-invariants", "src/data/euclideanInvariants.data", t, "violation",
+               "the abelian invariants of this table entry are not in the canonical form abelian_invariants() emits (no 1s, each non-zero factor divides the next): "
+               "no symbol can ever produce this string, so every symbol of that space group is answered 'no' (orbifold invariants do not match) although its covers/quotients are 'yes'")
+    if not noncanon:
+        ctx.ob("T4-data-canonical-invariants", "src/data/euclideanInvariants.data", "all entries", "ok", "every entry's invariants are in invariant-factor form (divisibility chain, no 1s)")
     ctx.floor("entries of the invariant table", len(entries), 219)
     ctx.floor("distinct entries of the invariant table", len(set(entries)), 212)
     # non-entries can never be equal to an invariant (they do not end in '/')
